@@ -32,7 +32,8 @@ CHECKS = [
        "Kernel-checked: every operator token's rule has the documented rank and associativity, the Pratt loop tests `<` for left and `≤` for right associativity, prefix operands parse at "
        "Unary, every token with precedence has an infix parser. The run renders every tree minimally (documented table) and fully parenthesised: the real parser must yield the same AST and "
        "the reference semantics of the fully parenthesised tree is the oracle for the minimal text.",
-       "Open: parse_renderMin for the Pratt parser model (prototype in DESIGN Appendix A)."),
+       "Also kernel-checked on a model of the Pratt expression parser (Model/Parser.lean: parse_expression's prefix/infix loop over tokens, every rank and associativity read from the generated rule table; compared with the real parser on every case by op pexpr): "
+       "parse_renderMin — for every expression tree over literals, identifiers, the 18 binary operators, unary ! - ~, assignment, ranges, index and call, parsing the minimally parenthesised rendering gives back the tree (and parse_renderFull). Open: the text-level link scan_render."),
     _c("C04", "Lean theorems on the symbol-table model (tied step-by-step to the real SymbolTable) + scope-skeleton differential run against the lexical reference",
        "Kernel-checked on the symbol-table model: the innermost binding wins, a block's binding is forgotten exactly when the block ends (store restored), every name resolves after the block "
        "as before it, a name bound nowhere does not resolve. The model is compared with the real SymbolTable on random define/resolve/leave_block/enter/leave sequences; enumerated scope "
@@ -71,7 +72,7 @@ CHECKS = [
     _c("C11", "Lean theorems (UTF-8, chars/join, len round trips; arity contract) + every builtin × arity × kind differential run through the real VM",
        "Kernel-checked: decode_utf8(encode_utf8 s) = s, len(encode_utf8 s) = len s, join(chars s) = s for every string; is_error total; one-argument builtins reject every other arity with an error. "
        "Spec.Builtins (from the documentation) is the oracle for 23 pure builtins × arity 0..4 × kinds × boundary/random values (scalar-value boundaries, invalid UTF-8 classes, sort on every comparability class).",
-       "Also kernel-checked: int(str(n)) = n for every 64-bit integer (int_str). Known findings: char/byte reject documented kinds (string, boolean). Open: builtin_contract (whole table), sort_sorted_perm; float(str x) not modelled (tested only)."),
+       "Also kernel-checked: builtin_contract_final — for all 23 documented pure builtins and every argument list the model returns what the documentation-derived specification prescribes (value, mutation, error), the only exclusion being the recorded findings; int(str(n)) = n for every 64-bit integer; sort returns a sorted permutation for arrays of one kind. float(str x) is not modelled (tested only)."),
     _c("C12", "Lean theorems on the format state-machine model + grammar-derived differential run against the reference renderer",
        "Kernel-checked: literal text renders as itself for every brace-free string (model and reference parser), the print family returns the byte length written (+1 for ln), a missing argument is an error. "
        "Spec.Format (documented grammar) is the oracle for all one-item strings over index/fill/justify/width/radix sets × argument lists, random multi-item strings, malformed specifiers (no-crash).",
@@ -80,7 +81,7 @@ CHECKS = [
     _c("C13", "generated failing constructs on known lines (independent of the scanner) + reference semantics predicting `rterr <line>`; Lean lemma make_lines_aligned",
        "One failing construct per program on a random line after random filler (comments, blank lines, definitions, loops, functions), inside/outside functions and closures, LF and CRLF; the reported "
        "line must equal the line computed from the text layout, and the reference semantics must predict the same line. Kernel-checked: make() emits exactly one line entry per code byte.",
-       "Open: fail_line (compiler-model invariant lines_aligned + per-opcode line of the failing instruction)."),
+       "Also kernel-checked for the core fragment: fail_line / fail_line_program — if the reference evaluation fails at a construct on line L, the compiled code runs to a stuck instruction whose entry in the per-byte line table (what the VM reports) is L, also in the n-th iteration of a loop; the functional line table is compared byte for byte with the real compiler's `lines` on every core program (op core). Outside the fragment (calls, index, builtins, match) the reference semantics decides on generated programs."),
     _c("C14", "Lean theorems over translator-generated opcode tables + differential correspondence of make/read_operands",
        "Kernel-checked: decode(encode)=id for every opcode and operand list that fits the declared widths (unbounded), the VM's inline operand reads equal the DEFINITIONS layout, From<u8> inverts the "
        "discriminant. Tables regenerated from the Rust source on every run; make/lookup/read_operands compared on every opcode byte and an operand sweep.",
